@@ -9,11 +9,11 @@ SPEC = {
         "level_text": "half.h's two conversion functions are compiled from the current tree into one shared object per build "
                       "configuration (g++/clang++ x C++14/17/20, gcc/clang x C99/C11, each with the lookup table, with "
                       "IMATH_HALF_NO_LOOKUP_TABLE, with the repository's CMake option IMATH_HALF_USE_LOOKUP_TABLE=OFF, and with -mf16c; "
-                      "-O0/-O2/-O3), each object is inspected to confirm which #if branch it selected, and every one of the 2^16 half and "
+                      "-O0/-O2/-O3; plus -DIMATH_HALF_ENABLE_FP_EXCEPTIONS builds of both languages), each object is inspected to confirm which #if branch it selected, and every one of the 2^16 half and "
                       "2^32 float inputs is run through every object and compared bit for bit with the default build (NaN inputs on F16C "
-                      "objects: NaN-ness and sign, as the property allows). The table generator toFloat.cpp is compiled and run and its "
+                      "objects: NaN-ness and sign, as the property allows). Every object is run again over all 2^16 half inputs, and one software object per branch, language and compiler over all 2^32 float inputs, under each non-default rounding mode and MXCSR DAZ / FTZ / DAZ+FTZ (F16C objects: all 2^32 under the three rounding modes); the result must not change. The table generator toFloat.cpp is compiled and run and its "
                       "65536 words are compared with toFloat.h and with the binary16 definition. Both dimensions of the quantifier are "
-                      "finite and enumerated completely (quick: one configuration per branch per language; thorough: the full matrix).",
+                      "finite and enumerated completely (quick: one configuration per branch per language per compiler family, the FP-exceptions objects on the boundary subset of float inputs and the float-input ambient sweep on one C and one C++ object; thorough: the full matrix, two FP-exceptions objects on all 2^32).",
         "level_note": "Configurations are those buildable on this host (x86-64, gcc 12, clang 14); the _MSC_VER sub-branches and the "
                       "non-GNU count-leading-zeros fallback cannot be compiled here. Correctness of the reference configuration itself is C01.",
         "deadline": {"quick": 240, "thorough": 900},
